@@ -95,6 +95,7 @@ func TestWorker(t *testing.T) {
 	}
 	deadline := time.Now().Add(time.Duration(*fBudget) * time.Second)
 	if *fReplay != "" {
+		wantStacks = true
 		replayFile(t, def, *fReplay, emit)
 		return
 	}
@@ -159,7 +160,7 @@ func replayFile(t *testing.T, def *propDef, file string, emit func(string, any))
 		if sc.Check != nil {
 			vs = append(vs, sc.Check(w)...)
 		}
-		res := map[string]any{"scenario": sc.ID, "outcome": w.Outcome, "violations": vs, "labels": chosenLabels(w), "trace": traceStrings(w), "blocked": w.Blocked}
+		res := map[string]any{"scenario": sc.ID, "outcome": w.Outcome, "violations": vs, "labels": chosenLabels(w), "trace": traceStrings(w), "blocked": w.Blocked, "stacks": w.Extra["stacks"]}
 		emit("R", res)
 		found := false
 		for _, v := range vs {
